@@ -6,8 +6,18 @@ rows = []
 for f in sorted(glob.glob(os.path.join(V, 'seeded', '*', 'meta.json'))):
     m = json.load(open(f)); d = os.path.basename(os.path.dirname(f))
     det = m['our_check']['detected']
+    res = 'caught (VIOLATION)' if det else 'MISSED'
+    if m['confirmed']['demo_with_change_exit'] == 0:
+        # the agent's own demonstration passes with the change on the current tree (a later fix: commit removed the
+        # behaviour the change relied on): the change no longer breaks the property
+        res = ('not a violation on the current tree (its demonstration passes with the change since a later repair); check silent'
+               if not det else 'ALARM on a change whose demonstration passes')
+    if m.get('check_run') and m['check_run'] != m['property']:
+        res += ' by `./check %s`' % m['check_run']
+    if m.get('note'):
+        res += ' — ' + m['note']
     rows.append('| `seeded/%s` | %s | %s | %s | %s |' % (d, m['property'], (m.get('title') or '').replace('|', '/')[:110],
-                (m.get('needs_to_manifest') or '').replace('|', '/').replace('\n', ' ')[:160], 'caught (VIOLATION)' if det else 'MISSED'))
+                (m.get('needs_to_manifest') or '').replace('|', '/').replace('\n', ' ')[:160], res))
 tbl = ('<!-- SEEDTABLE-BEGIN -->\n| directory | property | change | needs to manifest | `./check` on the changed tree |\n|---|---|---|---|---|\n'
        + '\n'.join(rows) + '\n<!-- SEEDTABLE-END -->')
 p = os.path.join(V, 'DESIGN.md'); s = open(p).read()
